@@ -177,6 +177,20 @@ pub fn yaml_seeds(quick: bool) -> Vec<Vec<u8>> {
         "a: &x\n  k: v\nb: *x\n",
         "a: &x {k: v}\nb:\n  <<: *x\n  z: 1\n",
         "- &a [1, 2]\n- *a\n",
+        // alias graphs: self-reference, self-reference plus a later alias outside the anchored node, indirect and
+        // mutual cycles, a redefined anchor, an alias before its anchor — whatever the loader decides (value or
+        // reported error), printing must not recurse without bound
+        "a: &x\n  b: *x\n",
+        "a: &x\n  b: *x\nc: *x\n",
+        "[&a [*a], *a]\n",
+        "- &a\n  - *a\n- *a\n",
+        "a: &x {b: &y {c: *x}}\nd: *y\ne: *x\n",
+        "a: &x [1]\nb: &x [*x]\nc: *x\n",
+        "a: &x {b: *x, c: *x}\nd: [*x, *x]\n",
+        "&r {a: *r}\n",
+        "- &a [*b]\n- &b [*a]\n- *a\n",
+        "a: *x\nb: &x 1\n",
+        "a: &x {k: &x {j: *x}}\nb: *x\n",
         "a: !!str 1\nb: !t x\nc: !!int \"3\"\n",
         "!!map {a: 1}\n",
         "--- a\n--- b\n",
